@@ -1302,8 +1302,8 @@ def native_functor_guard(c, a, st, v):
                 if lf[1][-1] == leg and len(lf[1]) == 3:
                     for fkey in functor_keys(st):
                         el = ("LFobj", "map_object", fkey, ("elem", nodes_t))
-                        sizes = ("lens", ("lmap", nodes_t, ("seq", el)), el)
-                        conds.append(("eq", t_len(lf), t_sum(("gather", sizes, ("flat", adj, ("el", adj, leg))))))
+                        for sizes in (("lens", ("lmap", nodes_t, ("seq", el)), el), ("lens", nodes_t, el)):
+                            conds.append(("eq", t_len(lf), t_sum(("gather", sizes, ("flat", adj, ("el", adj, leg))))))
         if len(conds) > 1:
             c.I.lemma_uses["LAXFUNCTOR-ARITY-TRUSTED"] = c.I.lemma_uses.get("LAXFUNCTOR-ARITY-TRUSTED", 0) + 1
         c.rej(st, "native functor path is total on quotient-free diagrams (absence only for pending unifications)", conds)
@@ -1383,6 +1383,16 @@ def eval_guard(c, a, st, v):
         # no operation at all, or the loop never ran: flags are the initial fill
         return
     X = sorted(flags, key=repr)[0]
+    # the array whose maximum the guard reads: the loop-carried flags, or the flags after one more step of the loop
+    # (when the loop exits after its body)
+    tested = set()
+
+    def visit(t):
+        if len(t) == 2 and t[0] == "max" and isinstance(t[1], tuple) and (t[1] in flags or (t[1][0] == "sac" and t[1][1] in flags)):
+            tested.add(t[1])
+    _walk_terms(st, visit)
+    if len(tested) == 1:
+        X = next(iter(tested))
     m = Poly.atom(("max", X))
     if is_fail(v):
         c.ob("REJ", "eval refuses only when some operation is unvisited", "None ⇒ max(unvisited) >= 1",
@@ -1565,7 +1575,7 @@ def lax_delete_nodes(c, a, st, v):
         old = f.f[fld].t
         ok = (t == old) or (t[0] == "filtermap" and t[1] == old and mentions_gather_of(t[2], old)) or (old == EMPTY and t == EMPTY)
         c.ob("ENS", f"delete_nodes: {fld} are filtered and renumbered through the reported map",
-             f"{fld} ≡ filter_map(old {fld}, map): got {show_term(t)[:200]}", ok, st)
+             f"{fld} ≡ filter_map(old {fld}, map): got {show_term(t)[:200]}", ok, st, actual=t)
 
 
 def mentions_gather_of(x, idx):
@@ -1616,7 +1626,24 @@ def bool_iff(c, st, v, expected, what):
     bad1 = c.I.assume(st.copy(), f_and(f, f_not(expected)))
     bad2 = c.I.assume(st.copy(), f_and(f_not(f), expected))
     ok = not bad1 and not bad2
-    c.ob("ENS", what, f"result ⇔ {show_formula(expected)} (got {show_formula(f)})", ok, st)
+    # a result (or a decision on the path) that is an uninterpreted boolean — an unknown call, `all`/`any` over a
+    # list, a flag vector — can be neither confirmed nor refuted against the definition
+    opaque_bool = _has_unk(f) or any(not _known_unk(k) for (k, _) in st.unk)
+    c.ob("ENS", what, f"result ⇔ {show_formula(expected)} (got {show_formula(f)})", ok, st,
+         actual=("v", "top:uninterpreted boolean") if opaque_bool else None)
+
+
+def _has_unk(f):
+    if isinstance(f, tuple):
+        if f and f[0] == "unk":
+            return True
+        return any(_has_unk(x) for x in f)
+    return False
+
+
+def _known_unk(key):
+    """Uninterpreted facts whose meaning the specs know (parameters, the var test of Forget)."""
+    return isinstance(key, tuple) and key and key[0] in ("param", "eq", "user-contract")
 
 
 def injective_formula(st, ff_):
